@@ -410,3 +410,8 @@ PROPS["C17"]["props"].append("MassVerif.Props.C17Order")
 PROPS["C17"]["level_text"] += (" Over whole histories (Props/C17Order): when no task id is added twice, for every open task the reports "
     "accepted for it, in the order they were reported, are exactly what its waiter has read followed by what is still queued "
     "(C17_history_order: in order, complete, unduplicated).")
+
+# C05 also runs the concurrent wallet harness (race detector): signatures returned under concurrent lock/unlock must verify
+PROPS["C05"]["harnesses"].append({"name": "walletconc", "pkg": "harness/walletconc", "race": True, "env": {"GORACE": "halt_on_error=1"},
+                                  "crash_key": "data-race-or-fatal-error", "replayable": False,
+                                  "quick": {"n": 6, "len": 10}, "thorough": {"n": 150, "len": 30}, "search": {"n": 40, "len": 20}})
